@@ -21,6 +21,7 @@ mod c14;
 mod c15;
 mod c16;
 mod c17;
+mod c18;
 mod c19;
 mod prog;
 
@@ -132,12 +133,23 @@ fn main() {
         #[cfg(not(feature = "inproc"))]
         "c16" => c16::run(&ctx),
         "c17" => c17::run(&ctx),
+        #[cfg(not(feature = "inproc"))]
+        "c18" => c18::run(&ctx),
         "c19" => c19::run(&ctx),
         "c19dump" => c19::dump(&ctx),
         _ => {
             eprintln!("unknown family {}", family);
             std::process::exit(2);
         },
+    }
+    if family != "c11" {
+        if let Some(m) = util::mon() {
+            if m.alarm_count() > 0 {
+                let text = m.alarm_text();
+                let kind = text.split_whitespace().next().unwrap_or("alarm").to_string();
+                rep.violation(&format!("{}:ledger:{}", family.to_uppercase(), kind), json!({"alarms": text.lines().take(8).collect::<Vec<_>>()}), ctx.replay(0));
+            }
+        }
     }
     rep.finish();
 }
